@@ -156,6 +156,13 @@ void harness (void) {
 
   res = eval (c2m_ctx, root);
 
+#ifdef H_EARLY_VALUE
+  /* Solver aid for `*`: the wrapped product is compared BEFORE overflow is assumed away (stronger than the property:
+     the value is also checked where C leaves it undefined), so that this query does not depend on the 128-bit
+     product that decides representability. */
+  H_ASSERT (res.u.u_val == exp.bits, "result value (wrapped, also where C leaves it undefined)");
+#endif
+
   /* undefined behaviour in an evaluated position: C requires nothing (MIR wraps) - not claimed */
   H_ASSUME (!exp.undef);
   if (exp.diag) {
